@@ -23,6 +23,8 @@ pub enum Corruption {
     ChecksumReversed { page: u8 },
     /// overwrite the last `pages` whole pages (payload and checksum) with zeros
     ZeroTail { pages: u8 },
+    /// XOR these bytes onto the page starting at byte `at`
+    Xor { page: u8, at: u16, bytes: Vec<u8> },
 }
 
 #[derive(Clone, Serialize, Deserialize)]
@@ -107,7 +109,18 @@ pub fn apply(bytes: &[u8], c: &Corruption) -> (Vec<u8>, bool) {
                     b[bit / 8] ^= 1 << (bit % 8);
                 }
             }
-            (b, true)
+            // a burst is guaranteed to be detected inside the payload or inside the stored checksum; across the boundary
+            // between the two the stored (byte-reversed) checksum is not a code word of the cyclic code any more
+            let straddles = start < 1020 * 8 && start + len > 1020 * 8;
+            (b, !straddles)
+        }
+        Corruption::Xor { page, at, bytes: x } => {
+            let base = (*page as usize % pages) * 1024;
+            let at = (*at as usize).min(1024 - x.len().min(1024));
+            for (i, v) in x.iter().take(1024).enumerate() {
+                b[base + at + i] ^= v;
+            }
+            (b, false)
         }
         Corruption::ZeroTail { pages: k } => {
             let k = (*k as usize % pages).max(1).min(pages.saturating_sub(1).max(1));
@@ -304,6 +317,11 @@ impl Check for C07 {
                 out.push(Case::AllBits { program: p.clone(), page });
             }
             out.push(Case::Sampled { program: p.clone(), corruptions: (0..8u8).map(|page| Corruption::ChecksumReversed { page }).chain((1..3u8).map(|pages| Corruption::ZeroTail { pages })).collect() });
+        }
+        {
+            let mut s = Src::from_seed(mix(0xC07, 1));
+            let p = small_program(&mut s);
+            out.push(Case::Sampled { program: p, corruptions: vec![Corruption::Xor { page: 1, at: 1019, bytes: vec![0x5D, 0xEE, 0x0D, 0x96] }] });
         }
         out.push(Case::Backends { seed: 7, n: t.pick(300, 5000) as u32 });
         // big files: page bookkeeping of bulk validators and "already checked" caches (block sizes, bit sets, wrap-around)
@@ -514,6 +532,18 @@ impl Check for C07 {
                         Corruption::Overwrite { .. } => v.nt("overwrite"),
                         Corruption::ChecksumReversed { .. } => v.nt("checksum_reversed"),
                         Corruption::ZeroTail { .. } => v.nt("zeroed_tail_pages"),
+                        Corruption::Xor { .. } => v.nt("burst_across_the_checksum_boundary"),
+                    }
+                    if let Corruption::Xor { at, bytes: x, .. } = c {
+                        // one burst of <= 32 bits (first to last altered bit) that the checksum cannot see
+                        let span_bits = x.len() * 8;
+                        if span_bits <= 32 && alt != b.bytes && page_verdicts(&alt).iter().all(|ok| *ok) {
+                            let accepted = guard(|| E57Reader::validate_crc(MemDev::with_data(alt.clone())).is_ok()).unwrap_or(false);
+                            if accepted {
+                                v.known("burst-across-checksum-boundary", format!("a burst of {} bits starting at page byte {at} (XOR {x:02x?}) leaves the big-endian CRC-32C of the page valid: validate_crc accepts the altered file", span_bits - 2));
+                                return v;
+                            }
+                        }
                     }
                     if let Err(e) = check_altered(&b, &alt, md, &format!("{c:?}")) {
                         v.fail(e);
